@@ -30,4 +30,135 @@ __CPROVER_ensures(!WV_BG->ispadding ==> (WV_BG->fout->nbytes - __CPROVER_old(WV_
 __CPROVER_ensures(wv_wP < __CPROVER_old(WV_BG->fout->pos) ==> (wv_wcount == __CPROVER_old(wv_wcount) && wv_wbyte == __CPROVER_old(wv_wbyte)))
 __CPROVER_ensures((wv_wP >= __CPROVER_old(WV_BG->fout->pos) && wv_wP < WV_BG->fout->pos) ==> wv_wcount == __CPROVER_old(wv_wcount) + 1)
 __CPROVER_ensures(WV_BG->fout->open && WV_BG->fin->open);
+
+/* ====================================================================================================================
+   Part 2: thread-modular ownership protocol (P-E).  Buffer i has a state token ctrl[i].state:
+     EMPTY, UPDATING : owned by the I/O thread (it may load, export, publish READY or retire to INV)
+     READY           : owned by worker i (it may take blocks in order and transform them, then hand back: READY -> UPDATING)
+     INV             : retired, frozen, owned by nobody.
+   Each side's code is proved against every behaviour the protocol allows the other side (the rely), folded into the contract
+   of cv.wait, the only place where a thread lets go of the lock while it depends on the shared state. */
+/* the harnesses of this part allocate the objects themselves and point the ghosts wv_c / wv_b at them (a pointer that a contract
+   only assumes equal to another cannot be dereferenced by CBMC), so the contracts ask for validity, not freshness */
+#define WV_PAIR_FRESH (__CPROVER_rw_ok(wv_c, sizeof(bufferctrl)) && __CPROVER_rw_ok(wv_b, sizeof(iobuffer)))
+#define WV_B_SAME (wv_b->now == __CPROVER_old(wv_b->now) && wv_b->total == __CPROVER_old(wv_b->total) && wv_b->tail == __CPROVER_old(wv_b->tail) && \
+  wv_b->isfinal == __CPROVER_old(wv_b->isfinal))
+
+/* condition_variable::wait(lock): releases the mutex, lets the environment run, re-acquires (spurious wake-ups included).
+   Rely while a worker waits on cv_ready : an I/O-owned buffer may end up in any state; READY comes with a freshly loaded,
+                                           non-empty buffer (now == 0, total >= 1), INV with a consumed one (now == total);
+                                           a worker-owned or retired buffer is not touched.
+   Rely while the I/O thread waits on cv_update : a READY buffer may be consumed further (now grows up to total) and handed
+                                           back (UPDATING only with now == total); anything else is not touched. */
+void wv_cv_wait(wv_cv *cv, wv_mutex *m)
+__CPROVER_requires(WV_PAIR_FRESH && (cv == &wv_c->cv_ready || cv == &wv_c->cv_update) && m == &wv_c->lock && m->held && WV_ST_OK(wv_c->state) && WV_B_OK(wv_b))
+__CPROVER_assigns(wv_c->state, wv_b->now, wv_b->total, wv_b->tail, wv_b->isfinal, WV_ARR(wv_b->b))
+__CPROVER_ensures(wv_c->lock.held && WV_ST_OK(wv_c->state) && WV_B_OK(wv_b))
+__CPROVER_ensures((cv == &wv_c->cv_ready && !WV_IO_OWNED(__CPROVER_old(wv_c->state))) ==> (wv_c->state == __CPROVER_old(wv_c->state) && WV_B_SAME))
+__CPROVER_ensures((cv == &wv_c->cv_ready && WV_IO_OWNED(__CPROVER_old(wv_c->state))) ==>
+                  ((wv_c->state == READY ==> (wv_b->now == 0 && wv_b->total >= 1)) && (wv_c->state == INV ==> wv_b->now == wv_b->total)))
+__CPROVER_ensures((cv == &wv_c->cv_update && __CPROVER_old(wv_c->state) != READY) ==> (wv_c->state == __CPROVER_old(wv_c->state) && WV_B_SAME))
+__CPROVER_ensures((cv == &wv_c->cv_update && __CPROVER_old(wv_c->state) == READY) ==>
+                  ((wv_c->state == READY || wv_c->state == UPDATING) && wv_b->now >= __CPROVER_old(wv_b->now) && wv_b->total == __CPROVER_old(wv_b->total) &&
+                   wv_b->tail == __CPROVER_old(wv_b->tail) && wv_b->isfinal == __CPROVER_old(wv_b->isfinal) && (wv_c->state == UPDATING ==> wv_b->now == wv_b->total)));
+
+void wv_cv_notify_all(wv_cv *cv)
+__CPROVER_requires(WV_PAIR_FRESH && (cv == &wv_c->cv_ready || cv == &wv_c->cv_update))
+__CPROVER_assigns(wv_pl.notified_ready, wv_pl.notified_update)
+__CPROVER_ensures(cv == &wv_c->cv_ready ? (wv_pl.notified_ready && wv_pl.notified_update == __CPROVER_old(wv_pl.notified_update))
+                                        : (wv_pl.notified_update && wv_pl.notified_ready == __CPROVER_old(wv_pl.notified_ready)));
+
+bool bufferctrl__cmpstate(bufferctrl *this, const enum bufstate_t state)
+__CPROVER_requires(__CPROVER_rw_ok(this, sizeof(*this)))
+__CPROVER_assigns()
+__CPROVER_ensures(__CPROVER_return_value == (this->state == state));
+
+/* [C04 lemma 1] the wait loops leave only with the awaited predicate, re-tested under the lock */
+void bufferctrl__wait_ready(bufferctrl *this)
+__CPROVER_requires(WV_PAIR_FRESH && this == wv_c && !this->lock.held && WV_ST_OK(this->state) && WV_B_OK(wv_b))
+__CPROVER_assigns(this->state, this->lock.held, wv_b->now, wv_b->total, wv_b->tail, wv_b->isfinal, WV_ARR(wv_b->b))
+__CPROVER_ensures((this->state == READY || this->state == INV) && !this->lock.held && WV_B_OK(wv_b))
+__CPROVER_ensures(!WV_IO_OWNED(__CPROVER_old(this->state)) ==> (this->state == __CPROVER_old(this->state) && WV_B_SAME))
+__CPROVER_ensures(WV_IO_OWNED(__CPROVER_old(this->state)) ==> ((this->state == READY ==> (wv_b->now == 0 && wv_b->total >= 1)) && (this->state == INV ==> wv_b->now == wv_b->total)));
+
+void bufferctrl__wait_update(bufferctrl *this)
+__CPROVER_requires(WV_PAIR_FRESH && this == wv_c && !this->lock.held && WV_ST_OK(this->state) && this->state != INV && WV_B_OK(wv_b))
+__CPROVER_assigns(this->state, this->lock.held, wv_b->now, wv_b->total, wv_b->tail, wv_b->isfinal, WV_ARR(wv_b->b))
+__CPROVER_ensures(WV_IO_OWNED(this->state) && !this->lock.held && WV_B_OK(wv_b))
+__CPROVER_ensures(__CPROVER_old(this->state) != READY ==> (this->state == __CPROVER_old(this->state) && WV_B_SAME))
+__CPROVER_ensures(__CPROVER_old(this->state) == READY ==> (this->state == UPDATING && wv_b->now == wv_b->total && wv_b->total == __CPROVER_old(wv_b->total) &&
+                  wv_b->tail == __CPROVER_old(wv_b->tail) && wv_b->isfinal == __CPROVER_old(wv_b->isfinal)));
+
+/* [C14] only the I/O thread publishes a buffer, and only one it owns; [C04 lemma 4] READY buffers are never empty;
+   [C04 lemma 2] the waiters on cv_ready are notified after the change, under the lock */
+void bufferctrl__set_ready(bufferctrl *this, bool load)
+__CPROVER_requires(WV_PAIR_FRESH && this == wv_c && !this->lock.held && WV_IO_OWNED(this->state) && WV_B_OK(wv_b) && bufferctrl__live_num >= 1)
+__CPROVER_requires(load ? (wv_b->now == 0 && wv_b->total >= 1) : (wv_b->now == wv_b->total))
+__CPROVER_assigns(this->state, this->lock.held, bufferctrl__live_num, wv_pl.notified_ready, wv_pl.notified_update)
+__CPROVER_ensures(this->state == (load ? READY : INV) && !this->lock.held && wv_pl.notified_ready)
+__CPROVER_ensures(bufferctrl__live_num == __CPROVER_old(bufferctrl__live_num) - (load ? 0 : 1));
+
+/* [C14] only the owner hands a buffer back, [C03] and only when every block has been taken; [C04 lemma 2] notify after the change */
+void bufferctrl__set_update(bufferctrl *this)
+__CPROVER_requires(WV_PAIR_FRESH && this == wv_c && !this->lock.held && (this->state == READY || this->state == INV) && WV_B_OK(wv_b))
+__CPROVER_requires(this->state == READY ==> wv_b->now == wv_b->total)
+__CPROVER_assigns(this->state, this->lock.held, wv_pl.notified_ready, wv_pl.notified_update)
+__CPROVER_ensures(!this->lock.held && (__CPROVER_old(this->state) == READY ? (this->state == UPDATING && wv_pl.notified_update) : this->state == INV));
+
+/* [C14] a worker looks into a buffer only while it owns it (READY) or after it was retired (INV, frozen);
+   [C03] the blocks of a load are handed out one by one, in order */
+u8_t *iobuffer__get_entry(iobuffer *this)
+__CPROVER_requires(WV_PAIR_FRESH && this == wv_b && (wv_c->state == READY || wv_c->state == INV) && WV_B_OK(this))
+__CPROVER_assigns(this->now)
+__CPROVER_ensures(__CPROVER_old(this->now) < this->total ? (__CPROVER_return_value == this->b[__CPROVER_old(this->now)] && this->now == __CPROVER_old(this->now) + 1)
+                                                         : (__CPROVER_return_value == NULL && this->now == __CPROVER_old(this->now)));
+
+/* worker loop invariant WV_WORKER_INV (wv_ghost.h): between two calls the buffer is the worker's (READY) or retired (INV, consumed) */
+u8_t *buffergroup__require_buffer_entry(buffergroup *this, const u8_t id)
+__CPROVER_requires(__CPROVER_rw_ok(this, sizeof(*this)) && WV_PAIR_FRESH && id < 16 && wv_b == &this->buflst[id] && wv_c == &this->ctrl[id] && WV_WORKER_INV)
+__CPROVER_requires(1)
+__CPROVER_assigns(wv_c->state, wv_c->lock.held, wv_b->now, wv_b->total, wv_b->tail, wv_b->isfinal, WV_ARR(wv_b->b), wv_pl)
+__CPROVER_ensures(WV_WORKER_INV)
+/* [C04 lemma 3] the worker is told "no more blocks" only when its buffer has been retired */
+__CPROVER_ensures(__CPROVER_return_value == NULL ==> (wv_c->state == INV && wv_pl.entries == __CPROVER_old(wv_pl.entries)))
+/* [C03] otherwise it gets the next block of the current load: the one after the previous block, or block 0 of a fresh load */
+__CPROVER_ensures(__CPROVER_return_value != NULL ==> (wv_c->state == READY && wv_b->now >= 1 && __CPROVER_return_value == wv_b->b[wv_b->now - 1] &&
+                  wv_pl.entries == __CPROVER_old(wv_pl.entries) + 1 && wv_pl.last_entry == __CPROVER_return_value))
+__CPROVER_ensures((__CPROVER_return_value != NULL && __CPROVER_old(wv_b->now) < __CPROVER_old(wv_b->total)) ==>
+                  (wv_b->now == __CPROVER_old(wv_b->now) + 1 && wv_b->total == __CPROVER_old(wv_b->total)))
+__CPROVER_ensures((__CPROVER_return_value != NULL && __CPROVER_old(wv_b->now) >= __CPROVER_old(wv_b->total)) ==> wv_b->now == 1)
+__CPROVER_ensures(wv_pl.runs == __CPROVER_old(wv_pl.runs) && wv_pl.order_ok == __CPROVER_old(wv_pl.order_ok) && wv_pl.last_run == __CPROVER_old(wv_pl.last_run) &&
+                  wv_pl.last_mode == __CPROVER_old(wv_pl.last_mode));
+
+void buffergroup__wait_buffer(buffergroup *this, const u8_t id)
+__CPROVER_requires(__CPROVER_rw_ok(this, sizeof(*this)) && WV_PAIR_FRESH && id < 16 && wv_c == &this->ctrl[id] && !wv_c->lock.held && WV_ST_OK(wv_c->state) && WV_B_OK(wv_b))
+__CPROVER_requires(!WV_IO_OWNED(wv_c->state) ==> (wv_c->state == INV ==> wv_b->now == wv_b->total))
+__CPROVER_assigns(wv_c->state, wv_c->lock.held, wv_b->now, wv_b->total, wv_b->tail, wv_b->isfinal, WV_ARR(wv_b->b))
+__CPROVER_ensures(WV_WORKER_INV);
+
+/* one stream step through the virtual call (R5 dispatcher over the eight stream classes): what the worker relies on is that
+   the dynamic type is kept and that only the block and the stream object are written.  (WV_RUNCRY_LIGHT: the worker proof does
+   not track block contents, and a store through a pointer that a replaced contract only assumes equal to &b[now-1] is what CBMC
+   cannot resolve, so there the frame lists the stream object only; the worker's own frame covers the whole buffer.) */
+#ifdef WV_RUNCRY_LIGHT
+#define WV_RUNCRY_BLOCK_FRAME
+#define WV_RUNCRY_BLOCK_OK(b) ((b) != NULL)
+#else
+#define WV_RUNCRY_BLOCK_FRAME __CPROVER_object_upto(block, 16),
+#define WV_RUNCRY_BLOCK_OK(b) __CPROVER_rw_ok(b, 16)
+#endif
+void Aesmode__runcry(Aesmode *this, u8_t *block)
+__CPROVER_requires(__CPROVER_rw_ok(this, sizeof(AesEncrypt)) && WV_TAG_OF(this) >= WV_TAG_AesECB_Enc && WV_TAG_OF(this) <= WV_TAG_AesOFB && WV_RUNCRY_BLOCK_OK(block))
+__CPROVER_assigns(WV_RUNCRY_BLOCK_FRAME __CPROVER_object_whole(this))
+__CPROVER_ensures(WV_TAG_OF(this) == __CPROVER_old(WV_TAG_OF(this)));
+
+/* the worker thread: waits for its buffer, then every block it is handed is transformed exactly once, at once (before the next
+   one is requested), by the stream object it was started with; it leaves only when its buffer has been retired */
+void multiruncrypt_file(u8_t id, Aesmode *mode)
+__CPROVER_requires(__CPROVER_rw_ok(buffergroup__instance, sizeof(buffergroup)) && WV_PAIR_FRESH && id < 16 && wv_b == &buffergroup__instance->buflst[id] &&
+                   wv_c == &buffergroup__instance->ctrl[id] && !wv_c->lock.held && WV_ST_OK(wv_c->state) && WV_B_OK(wv_b) && (wv_c->state == INV ==> wv_b->now == wv_b->total))
+__CPROVER_requires(__CPROVER_rw_ok(mode, sizeof(AesEncrypt)) && WV_TAG_OF(mode) >= WV_TAG_AesECB_Enc && WV_TAG_OF(mode) <= WV_TAG_AesOFB &&
+                   wv_pl.entries == 0 && wv_pl.runs == 0 && wv_pl.order_ok && !buffergroup__mtx.held)
+__CPROVER_assigns(wv_c->state, wv_c->lock.held, wv_b->now, wv_b->total, wv_b->tail, wv_b->isfinal, WV_ARR(wv_b->b), wv_pl, __CPROVER_object_whole(mode))
+__CPROVER_ensures(wv_c->state == INV && wv_pl.runs == wv_pl.entries && wv_pl.order_ok && (wv_pl.runs > 0 ==> wv_pl.last_mode == mode));
 #endif
